@@ -93,7 +93,9 @@ pub enum R {
     Tuple(Vec<R>),
     Dom(Box<R>, Box<R>),
     Vec(Vec<R>),
-    /// union-find parent map: distinct items, `(item, parent)`
+    /// union-find parent map `(item, parent)`. Items are distinct in every value that is queried
+    /// or used as a receiver; *merge-in deltas* held by Vec-/array-backed representations may list
+    /// an item several times (Merge reads the map as a list of union edges).
     Uf(Vec<(u8, u8)>),
     Conflict(Option<u8>),
     Point(u8),
